@@ -46,6 +46,14 @@ class Obj:
         return f"<{self.cls.rsplit('.', 1)[-1]} {self.name}>"
 
 
+def _f32_exact(x):
+    import struct
+    try:
+        return struct.unpack("f", struct.pack("f", x))[0] == x
+    except (OverflowError, struct.error):
+        return False
+
+
 class Closure:
     def __init__(self, node, env, module, fi=None, self_obj=None, cls_ctx=None):
         self.node, self.env, self.module, self.fi, self.self_obj, self.cls_ctx = node, env, module, fi, self_obj, cls_ctx
@@ -347,6 +355,9 @@ class Interp:
         if name.startswith("torch.") or name.startswith("torch"):
             opname = name[len("torch."):]
             opname = opname.replace("nn.functional.", "").replace("autograd.", "autograd_")
+            if opname in ("as_tensor", "tensor") and args and "dtype" not in kwargs and isinstance(args[0], float) and not _f32_exact(args[0]):
+                # a Python float constant that float32 cannot represent, packed into a default-dtype tensor (math.pi, 0.1, ...)
+                self.ev("lossy_scalar", value=repr(args[0]), how=f"torch.{opname}(<python float constant>) without dtype", node=node)
             if opname in ("as_tensor",) and args and isinstance(args[0], Term) and not kwargs:
                 if isinstance(args[0], Sym) and "float" in args[0].tags:
                     # a Python float turned into a 0-dim tensor of the DEFAULT dtype: same value for the algebra, but the value is rounded to
@@ -355,6 +366,8 @@ class Interp:
                 return args[0]
             if opname == "Size":
                 return tuple(args[0])
+            if opname == "broadcast_tensors":
+                return tuple(args)  # shape-only: every operand keeps its values (the like of torch.distributions.utils.broadcast_all)
             if opname == "tensor" and args and isinstance(args[0], Sym) and ("float" in args[0].tags or "list" in args[0].tags) and "dtype" not in kwargs:
                 self.ev("lossy_scalar", value=args[0], how="torch.tensor(<python float>) without dtype", node=node)
             if opname in ("set_grad_enabled", "enable_grad", "no_grad"):
